@@ -239,6 +239,10 @@ pub open spec fn exchange_err(e: Error) -> bool {
         || e == Error::Mailbox(MailboxError::NoReadMailbox) || e == Error::Mailbox(MailboxError::NoWriteMailbox)
 }
 
+/// "a checked read of the status register at `address` returned `st`"
+pub uninterp spec fn status_read(address: u16, st: Status) -> bool;
+/// status register of sync manager `sm` (src/register.rs: SM0 at 0x0800, 8 bytes per sync manager, status = byte 5)
+pub open spec fn sm_status_reg(sm: u8) -> u16 { (0x0800 + 8 * sm + 5) as u16 }
 /// the sync manager status byte as far as it is looked at here (src/sync_manager_channel.rs; layout: C19)
 pub struct Status { pub mailbox_full: bool }
 pub struct WrappedRead { pub address: u16 }
@@ -249,7 +253,9 @@ impl WrappedRead {
     /// `receive::<Status>`: the device may report ANY status
     #[verifier::external_body]
     pub async fn receive_status(self, maindevice: &MainDevice) -> (r: Result<Status, Error>)
-        ensures r is Err ==> net_err(r->Err_0)
+        ensures
+            r is Ok ==> status_read(self.address, r->Ok_0),
+            r is Err ==> net_err(r->Err_0),
     { unimplemented!() }
     /// ANY bytes
     #[verifier::external_body]
@@ -265,7 +271,7 @@ impl RegisterAddress {
     #[verifier::external_body]
     pub fn sync_manager_status(index: u8) -> (r: u16)
         requires index < 16
-        ensures r == 0x0800 + 8 * index + 5
+        ensures r == sm_status_reg(index)
     { unimplemented!() }
 }
 
@@ -343,13 +349,20 @@ impl<'a> Coe<'a> {
         // Ok => the pair is (read mailbox, write mailbox) as configured - the order mailbox_write_read relies on
         r is Ok ==> self.subdevice.config.mailbox.read == Some((r->Ok_0).0) && self.subdevice.config.mailbox.write == Some((r->Ok_0).1),
         r is Err ==> exchange_err(r->Err_0),
+        // Ok => the status of the READ mailbox's own sync manager was polled (that is what the stale-mailbox drain looks at),
+        // and the WRITE mailbox's own sync manager reported "not full" before the request may be written
+        r is Ok ==> (exists|st: Status| #[trigger] status_read(sm_status_reg(self.subdevice.config.mailbox.read->Some_0.sync_manager), st))
+            && (exists|st: Status| #[trigger] status_read(sm_status_reg(self.subdevice.config.mailbox.write->Some_0.sync_manager), st) && !st.mailbox_full),
     // the stale-mailbox drain runs at most 10 times; the wait for the write mailbox runs under the mailbox_echo timeout
 @loop 0
     invariant
         !__dl.active,
+        i > 0 ==> exists|st: Status| #[trigger] status_read(sm_status_reg(read_mailbox.sync_manager), st),
 @loop 1
     invariant
         __dl.active,
+    ensures
+        __brk0 is Ok ==> exists|st: Status| #[trigger] status_read(sm_status_reg(write_mailbox.sync_manager), st) && !st.mailbox_full,
     decreases __dl.left@
 @closure 0 "|_e: &Error|"
 @*/
@@ -360,10 +373,13 @@ impl<'a> Coe<'a> {
         // the reply handed to the triage is what a checked read of exactly this mailbox (address, length) returned, after
         // the mailbox reported full; waiting for that runs under the mailbox_response timeout
         r is Ok ==> mbx_reply(*read_mailbox, (r->Ok_0).data()),
+        r is Ok ==> exists|st: Status| #[trigger] status_read(sm_status_reg(read_mailbox.sync_manager), st) && st.mailbox_full,
         r is Err ==> exchange_err(r->Err_0),
 @loop 0
     invariant
         __dl.active,
+    ensures
+        __brk0 is Ok ==> exists|st: Status| #[trigger] status_read(sm_status_reg(read_mailbox.sync_manager), st) && st.mailbox_full,
     decreases __dl.left@
 @closure 0 "|_e: &Error|"
 @*/
